@@ -131,6 +131,14 @@ func (c C12) Run(t *tape.Tape, opt core.RunOpt) (res core.Result) {
 			VarInLiteral: strat != workload.StratReflect, ShuffleArgs: true, MaxDepth: 2 + t.Draw(3), PathMode: pathMode})
 	}
 	if strat == workload.StratReflect && t.Bool(1, 8) {
+		// walks along the cycles of the type graph from different ends: first-use
+		// binding of the same types in opposite orders
+		pool = pool[:0]
+		for k := 0; k < 2+t.Draw(2); k++ {
+			pool = append(pool, &workload.Request{Src: workload.CycleRequests[t.Draw(len(workload.CycleRequests))]})
+		}
+		res.Count("runs_type_cycle_requests", 1)
+	} else if strat == workload.StratReflect && t.Bool(1, 8) {
 		// two Go structs behind one GraphQL type, whichever is seen first. The
 		// library looks a Go field up by name in the value at hand, so plain
 		// fields that both structs have resolve the same in either order; fields
